@@ -307,7 +307,8 @@ fn scenarios(tier: Tier) -> Vec<Scenario> {
         Tier::Thorough => vec!["", "mark:0;save", "mark:0;mark:1;save", "mark:0;save;unmark:0;save"],
     };
     let rsave: Vec<&str> = match tier {
-        Tier::Quick => vec!["mark:1;save", "unmark:0;save"],
+        // two keys in different bucket pages: a prefix of the file shows one of them only
+        Tier::Quick => vec!["mark:1;save", "unmark:0;save", "mark:1;mark:2;save"],
         Tier::Thorough => vec!["mark:1;save", "unmark:0;save", "mark:1;mark:2;save", "mark:0;save", "unmark:0;mark:2;save"],
     };
     for p in &rpre {
